@@ -26,6 +26,8 @@ import traceback
 
 ROOT = os.path.dirname(os.path.dirname(os.path.abspath(__file__)))
 REPO = os.environ.get("VERIF_REPO", "/repo")
+if REPO not in sys.path[:1]:
+    sys.path.insert(0, REPO)      # every `import pyanalyze` (also one made before pa.run is imported) must resolve to the tree under test
 NPROC = int(os.environ.get("VERIF_NPROC", "16"))
 
 
